@@ -45,7 +45,7 @@ CHECKS = {
  'C04': dict(
     level=('other', 'S: the real Lexer wrapper (auto_semi, _is_prev_token_lt, _get_update_token, _token) runs under SX on a raw-token source whose kinds are symbolic finite-domain z3 values; over all kind sequences of <= 3/4 raw items z3 decides that a semicolon is supplied iff the offending token is `}` or separated by a line terminator (also inside a multi-line comment / not a multi-line string), and that the lexer emits the virtual semicolon exactly at the first terminator after return/break/continue/throw (with <= 2 arbitrary tokens before and <= 3 layout items after). '
                     'Symbolic counterexamples are rendered as text and replayed through the plain lexer against an independent scan of the layout. '
-                    'T (replay of the metamorphic statement): table-derived structures x every statement-terminating `;` x 13 separating layouts, judged against 7.9 evaluated on the real LALR tables (offending = prefix.token not viable).', 'DESIGN.md C04'),
+                    'T (replay of the metamorphic statement): table-derived structures x every statement-terminating `;` x 13 separating layouts, judged against 7.9 evaluated on the real LALR tables (offending = prefix.token not viable). N (replay): a line terminator inserted in any gap of a fully punctuated program changes nothing except after a restricted keyword in its statement role and before ++/--.', 'DESIGN.md C04'),
     note='Trusted: the raw-token source as a model of the regex level; the real tables as the grammar (C03). Outside: several omitted semicolons at once; longer programs. The structure/layout product of leg T is exploration, stated as such.',
     technique='symbolic execution of the real lexer wrapper on symbolic token kinds (z3 finite domain) against a ghost oracle + table-driven metamorphic replay',
     engine='SX+GX'),
